@@ -55,7 +55,7 @@ impl Property for C19 {
         ]
     }
     fn expected_probes(&self) -> Vec<&'static str> {
-        vec!["drain_always", "drain_sometimes", "drain_never", "toggle_checked", "ay_enabled", "many_toggles_in_frame", "multi_frame_call", "rate_low", "rate_high", "szx_load_between_frames", "ay_switched_by_host", "sound_enabled_after_construction", "snapshot_over_halted_cpu", "szx_taken_inside_a_frame", "sna_load_between_frames"]
+        vec!["drain_always", "drain_sometimes", "drain_never", "toggle_checked", "ay_enabled", "many_toggles_in_frame", "multi_frame_call", "rate_low", "rate_high", "szx_load_between_frames", "ay_switched_by_host", "sound_enabled_after_construction", "snapshot_over_halted_cpu", "szx_taken_inside_a_frame", "sna_load_between_frames", "tape_playing_meanwhile"]
     }
 
     fn gen(&self, rng: &mut Rng, tier: Tier, _idx: u64) -> Scenario {
@@ -71,6 +71,7 @@ impl Property for C19 {
         sc.set("drain", *rng.pick(&[0i64, 0, 1, 2]));
         sc.set("drain_j", rng.range(2, 4));
         sc.set("sound_late", rng.chance(1, 4) as i64);
+        sc.set("tape", rng.chance(1, 4) as i64);
         let snaps = rng.chance(1, 3);
         let ay_sets = rng.chance(1, 3);
         let f: i64 = if m128 { 70908 } else { 69888 };
@@ -116,6 +117,14 @@ impl Property for C19 {
             e.set_sound(true);
         }
         let machine = if m128 { "128k" } else { "48k" };
+        // a tape may be playing all the while (real-time loading): what the program hears on EAR is an input; the
+        // sound output is the speaker / MIC levels the program sets, nothing else
+        if sc.get("tape") != 0 {
+            ctx.probe("tape_playing_meanwhile");
+            let tap = zxref::tape::make_tap(&[zxref::tape::std_block(0x00, &[0x55; 17]), zxref::tape::std_block(0xFF, &[0xAA; 200])]);
+            e.load_tape(rustzx_core::host::Tape::Tap(crate::host::AnyAsset::Sim(crate::host::SimAsset::plain(tap)))).map_err(|x| Fail::new("C19.load", "", format!("{:?}", x)))?;
+            e.play_tape();
+        }
         if rate < 27000 {
             ctx.probe("rate_low");
         }
